@@ -213,9 +213,10 @@ def gen_images(ctx):
     for kf in ([0, 1], [0, 0]):
         v0 = slot_values(2, 0, (1, 2), pays2, eszs2)
         v1 = slot_values(2, 1, (1, 2), pays2, eszs2)
-        for a in v0:
-            for b in v1:
-                im.add(2, kf, [a, b], 'x2')
+        for ia, a in enumerate(v0):
+            for ib, b in enumerate(v1):
+                if ctx.thorough or (ia + ib + ctx.seed) % 2 == 0:      # quick: every second pair, the parity chosen by the seed
+                    im.add(2, kf, [a, b], 'x2')
     # --- seeded samples of the 3- and 4-slot spaces -----------------------------------------------------------------------
     def sample(n, count, nkeys, tag):
         slot_size = (DB_BYTES - DB_HEADER) // n
@@ -239,10 +240,10 @@ def gen_images(ctx):
                         v['bad'] = rnd.choice('zg')
                     img.append(v)
             im.add(n, kf, img, tag)
-    sample(3, 9000 if ctx.thorough else 5000, 2, 's3')
-    sample(4, 4000 if ctx.thorough else 1500, 2, 's4')
-    sample(4, 2000 if ctx.thorough else 500, 3, 's4k3')
-    sample(6, 1000 if ctx.thorough else 300, 3, 's6k3')
+    sample(3, 9000 if ctx.thorough else 2000, 2, 's3')
+    sample(4, 4000 if ctx.thorough else 800, 2, 's4')
+    sample(4, 2000 if ctx.thorough else 300, 3, 's4k3')
+    sample(6, 1000 if ctx.thorough else 200, 3, 's6k3')
     # --- the MC quick space through the real code (thorough): N=3, two keys in different anchors, pay 1, esz in {0, 2} ----
     # every second image of it, the parity chosen by the seed: two runs with seeds of different parity cover the whole space
     if ctx.thorough:
@@ -587,7 +588,7 @@ def model_check(ctx):
         return
     # *_cur: the machine as the tree is now (anchored + size checks of e2d5c44/204d147, no leftovers check): C57 up to the
     # foreign-slot shape (F6c); *_fixed: with the leftovers check + undo as well: strict C57; *_old (thorough): before the repairs
-    runs = [('MC_RockRebuild_q_cur.cfg', 900), ('MC_RockRebuild_q_fixed.cfg', 900)]
+    runs = [('MC_RockRebuild_q_cur.cfg', 900)]      # quick: the machine as it is; the fully repaired one is re-checked in the thorough tier
     if ctx.thorough:          # the t space (payload sizes {1,2}) contains the q space
         runs = [('MC_RockRebuild_t_cur.cfg', 3000), ('MC_RockRebuild_t_fixed.cfg', 3000),
                  ('MC_RockRebuild_c_cur.cfg', 3000), ('MC_RockRebuild_c_fixed.cfg', 3000), ('MC_RockRebuild_q_old.cfg', 3000)]
